@@ -354,6 +354,20 @@ Theorem C17_generated_GetParams_cuts_the_full_certificate :
              p_from (GenAgreeBuildParams.abs c0) = GoNum.u64_add prev 1 /\ p_to (GenAgreeBuildParams.abs c0) = synced.
 Proof. exact GenAgreeGetParams.GetParams_cuts_the_full_certificate. Qed.
 
+(* ---- the prover flow's cut: adjustBlockRange GENERATED from flow_aggchain_prover.go on every run ---- *)
+From Verif Require Gen.GenAdjustRange Proofs.GenAgreeProverFlow.
+(* when the prover proved another end block than the one requested the certificate is restricted to (first block .. that block) by the
+   translated Range, i.e. the model's range_cut: same first block, exactly the events of the kept blocks in their order, an error
+   when the block lies outside the certificate - for every value of the panic parameter *)
+Theorem C17_generated_adjustBlockRange_is_model :
+  forall (panicv : option GenBuildParams.CertificateBuildParams * GoNum.gerr) (c : GenBuildParams.CertificateBuildParams) (req prov : N),
+  let a := GenAgreeBuildParams.abs in
+  match (if req =? prov then Ok (a c) else range_cut (a c) (p_from (a c)) prov) with
+  | Ok p => exists c', GenAdjustRange.adjustBlockRange panicv (Some c) req prov = (Some c', GoNum.EOK) /\ a c' = p
+  | Err _ => GenAdjustRange.adjustBlockRange panicv (Some c) req prov = (None, GoNum.EFail)
+  end.
+Proof. exact GenAgreeProverFlow.adjustBlockRange_agree. Qed.
+
 (* Print Assumptions walks the whole dependency cone each time (0.8 s per call here); the theorems are therefore
    grouped in four tuples, the assumptions of a tuple being the union of the assumptions of its components *)
 Definition C17_all_range := (C17_range_is_filter, C17_range_strict_is_filter, C17_range_cases).
@@ -373,5 +387,5 @@ Definition C17_all_generated_params := (C17_generated_Range_is_model, C17_genera
   C17_generated_counts_are_model, C17_generated_nil_receiver, C17_generated_MaxDepositCount_is_last,
   C17_generated_limitCertSize_is_model, C17_generated_limitCertSize_returns_the_limit,
   C17_generated_AdaptCertificate_is_model, C17_generated_AdaptCertificate_clamps,
-  C17_generated_GetParams_rule, C17_generated_GetParams_cuts_the_full_certificate).
+  C17_generated_GetParams_rule, C17_generated_GetParams_cuts_the_full_certificate, C17_generated_adjustBlockRange_is_model).
 Print Assumptions C17_all_generated_params.
